@@ -647,7 +647,9 @@ def fdepsd(
     # for calculating G2:
     G2max = Amax**2
     for j in range(LF):
-        pv = BinAmps[j] >= Amax[j] / 3  # ignore small amp cycles
+        # ignore small amp cycles (bins below 1/3 of the maximum; decided
+        # on the bin number so that round-off cannot move the cut-off):
+        pv = 3 * np.arange(BinAmps.shape[1]) >= BinAmps.shape[1]
         if np.any(pv):
             x = BinAmps[j, pv] ** 2
             x2 = G2max[j]
